@@ -23,6 +23,8 @@ import (
 	"encoding/hex"
 	stderrors "errors"
 	"fmt"
+	"sort"
+	"io"
 	"net/netip"
 	"os"
 	"path/filepath"
@@ -35,6 +37,7 @@ import (
 	"github.com/cilium/ebpf"
 	"github.com/daeuniverse/dae/common/consts"
 	"github.com/daeuniverse/dae/component/outbound/dialer"
+	"github.com/sirupsen/logrus"
 )
 
 const (
@@ -677,6 +680,13 @@ func (g *c03Gen) retr(r *VRand, f *c03Flow, fwd bool) {
 	g.stats.Inc("retr")
 }
 
+// one janitor round (conn-state + hand-off), steady-state or under pressure, `age` ns from now
+func (g *c03Gen) jan(r *VRand) {
+	age := []uint64{0, 0, 2000000000, 30000000000, 61000000000, 90000000000, 130000000000}[r.Intn(7)]
+	g.c(fmt.Sprintf("jan %d %d", c03B2u(r.Chance(0.4)), age))
+	g.stats.Inc("op.jan")
+}
+
 func (g *c03Gen) scenario(r *VRand, rp *VRand, id int, tag string, steps int) {
 	g.c(fmt.Sprintf("note scen %d %s", id, tag))
 	g.c("reset")
@@ -953,9 +963,14 @@ func (g *c03Gen) scenario(r *VRand, rp *VRand, id int, tag string, steps int) {
 			}
 			g.stats.Inc("op.cookie-change")
 		default:
-			g.retr(r, flows[r.Intn(len(flows))], r.Chance(0.8))
+			if r.Chance(0.5) {
+				g.retr(r, flows[r.Intn(len(flows))], r.Chance(0.8))
+			} else {
+				g.jan(r)
+			}
 		}
 	}
+	g.jan(r)
 	g.c("dump")
 }
 
@@ -1358,6 +1373,15 @@ func TestVerifC03Retr(t *testing.T) {
 			if sc.Scan() {
 				cl = sc.Text()
 			}
+			if strings.HasPrefix(op, "jan ") {
+				if !kernel {
+					w.WriteString("jan=unavailable\n")
+					continue
+				}
+				ans := VRecover(func() string { return c03Janitor(op, cl, core, connMap, hoMap, &loadedConn, &loadedHo, stats) })
+				w.WriteString(ans + "\n")
+				continue
+			}
 			if !strings.HasPrefix(op, "retr ") {
 				w.WriteString("-\n")
 				continue
@@ -1477,6 +1501,120 @@ func TestVerifC03Retr(t *testing.T) {
 		fc.Close()
 	}
 	stats.Write("c03retr")
+}
+
+// c03Janitor answers a `jan <aggressive> <age>` op: the raw conn_state / hand-off entries the kernel program stored
+// (C dump) are loaded into the real kernel maps with their timestamps rebased age-preservingly to CLOCK_MONOTONIC,
+// then the REAL cleanupConnStateMapBeforeLocked / cleanupRoutingHandoffMapBeforeLocked run; the answer lists the keys
+// they deleted, plus the keys whose age is so close to a timeout that the host's scheduling decided (`unc`).
+func c03Janitor(op, cl string, core *controlPlaneCore, connMap, hoMap *ebpf.Map, loadedConn, loadedHo *map[string][]byte, stats *VStats) string {
+	tk := strings.Fields(op)
+	cf := strings.Fields(cl)
+	if len(tk) != 3 || len(cf) != 3 || !strings.HasPrefix(cf[2], "now=") {
+		return "jan=bad-op"
+	}
+	aggressive := tk[1] != "0"
+	age, _ := strconv.ParseUint(tk[2], 10, 64)
+	conn, e1 := c03ParseDump(cf[0])
+	ho, e2 := c03ParseDump(cf[1])
+	if e1 != nil || e2 != nil {
+		return "jan=bad-dump"
+	}
+	shimNow, _ := strconv.ParseUint(cf[2][4:], 10, 64)
+	realNow, err := monotonicNowNano()
+	if err != nil {
+		return "jan=error:clock"
+	}
+	if *loadedConn == nil {
+		*loadedConn, *loadedHo = map[string][]byte{}, map[string][]byte{}
+	}
+	ages := map[string]uint64{}
+	load := func(m *ebpf.Map, loaded *map[string][]byte, want map[string][]byte, off int, tag string) error {
+		for k := range *loaded {
+			if _, ok := want[k]; !ok {
+				kb, _ := hex.DecodeString(k)
+				if err := m.Delete(kb); err != nil && !stderrors.Is(err, ebpf.ErrKeyNotExist) {
+					return err
+				}
+			}
+		}
+		for k, v := range want {
+			kb, _ := hex.DecodeString(k)
+			vv := append([]byte{}, v...)
+			last := binary.NativeEndian.Uint64(vv[off:])
+			a := shimNow + age - last
+			ages[tag+k] = a
+			if last != 0 {
+				binary.NativeEndian.PutUint64(vv[off:], c03Rebase(realNow, a))
+			}
+			if err := m.Put(kb, vv); err != nil {
+				return err
+			}
+		}
+		*loaded = want
+		return nil
+	}
+	if err := load(connMap, loadedConn, conn, 8, "c"); err != nil {
+		return "jan=error:load-conn:" + err.Error()
+	}
+	if err := load(hoMap, loadedHo, ho, 0, "h"); err != nil {
+		return "jan=error:load-ho:" + err.Error()
+	}
+	cp := &ControlPlane{core: core, log: logrus.New(), controlPlaneDatapathJanitor: newControlPlaneDatapathJanitor()}
+	cp.log.SetOutput(io.Discard)
+	cp.cleanupConnStateMapBeforeLocked(aggressive, 0)
+	cp.cleanupRoutingHandoffMapBeforeLocked(0)
+	realNow2, _ := monotonicNowNano()
+	stall := int64(realNow2-realNow) + 20000000
+	var del, hdel, unc []string
+	uncertain := func(a uint64, limits []int64) bool {
+		if int64(a) >= 0 && a >= realNow && realNow <= 125000000000 {
+			return true // older than the host's boot and the host is younger than the longest timeout
+		}
+		for _, lim := range limits {
+			if int64(a) > lim-stall && int64(a) <= lim+20000000 {
+				return true
+			}
+		}
+		return false
+	}
+	sec := int64(1000000000)
+	for k := range conn {
+		kb, _ := hex.DecodeString(k)
+		var probe bpfConnState
+		gone := connMap.Lookup(kb, &probe) != nil
+		if uncertain(ages["c"+k], []int64{5 * sec, 17 * sec / 2, 10 * sec, 17 * sec, 60 * sec, 120 * sec}) {
+			unc = append(unc, k)
+		}
+		if gone {
+			del = append(del, k)
+			delete(*loadedConn, k)
+		}
+	}
+	for k := range ho {
+		kb, _ := hex.DecodeString(k)
+		var probe bpfRoutingHandoffEntry
+		gone := hoMap.Lookup(kb, &probe) != nil
+		if uncertain(ages["h"+k], []int64{routingHandoffTimeout.Nanoseconds()}) {
+			unc = append(unc, k)
+		}
+		if gone {
+			hdel = append(hdel, k)
+			delete(*loadedHo, k)
+		}
+	}
+	sort.Strings(del)
+	sort.Strings(hdel)
+	sort.Strings(unc)
+	stats.Inc("jan.rounds")
+	if aggressive {
+		stats.Inc("jan.aggressive")
+	}
+	stats.Add("jan.conn-entries", len(conn))
+	stats.Add("jan.conn-deleted", len(del))
+	stats.Add("jan.handoff-deleted", len(hdel))
+	stats.Add("jan.uncertain", len(unc))
+	return fmt.Sprintf("del=[%s] hdel=[%s] unc=[%s]", strings.Join(del, ";"), strings.Join(hdel, ";"), strings.Join(unc, ";"))
 }
 
 // c03Rebase gives the CLOCK_MONOTONIC timestamp whose age at realNow is `age` (computed modulo 2^64 on the
